@@ -15,6 +15,7 @@ infeasible models (must raise OptimizationException)."""
 import os
 from .. import common as C, gen, build
 from .. import gen_solve as G
+from .. import scipy_guard as SG
 from ..check import Prop, Op
 
 
@@ -47,12 +48,15 @@ class C05(Prop):
   assumptions = [
     'SLSQP is a parameter of the model: its convergence and the honesty of its `success` flag are runtime behaviour no theorem reaches (level: proof, partial); only the oracle observes them',
     'oracle polytope: bounds + the implementation\'s constraint functions read at 0 and the unit vectors (exact for affine functions; affinity probed)',
+    'models on which SciPy\'s SLSQP is known to corrupt memory (more equality constraints than the variables it works on; vk/scipy_guard.py) are not solved for real: '
+    'they are counted as scipy_unsafe_skipped, the stubbed runs still cover them',
   ]
 
   def __init__(self):
     self.ev = {'real_solves': 0, 'returned': 0, 'raised_on_feasible': 0, 'raised_on_infeasible': 0, 'infeasible_models': 0,
                'shortcut_returns': 0, 'closed_form_compared': 0, 'certificates': 0, 'worst_gap_over_scale': 0.0,
-               'max_violation': 0.0, 'refined_searches': 0, 'stub_runs': 0, 'nonaffine_skipped': 0}
+               'max_violation': 0.0, 'refined_searches': 0, 'stub_runs': 0, 'nonaffine_skipped': 0,
+               'scipy_unsafe_skipped': 0, 'raised_on_feasible_degenerate_start': 0, 'raised_on_feasible_by_status': {}}
 
   # ------------------------------------------------------------------ cases
   def stub_case(self, rng, tier, mkind, status, success):
@@ -67,7 +71,8 @@ class C05(Prop):
     res = {'x': [C.fs(C.dy(rng, -4, 4, 3)) for _ in range(N)], 'success': success, 'status': status,
            'message': G.SLSQP_MESSAGES[status] if not (success and status) else 'stub'}
     return {'kind': 'stub', 'model': m, 'p': G.gen_price(rng, R, n), 's0': s0, 's0shape': shape, 'prox': prox,
-            'cb': rng.random() < 0.3, 'res': res, 'probe': G.dyadic_flow(rng, m)}
+            'cb': rng.random() < 0.3, 'res': res, 'probe': G.dyadic_flow(rng, m),
+            'ftol': rng.choice([None, None, None, '1/1024']), 'maxiter': rng.choice([None, None, None, 7, 250])}
 
   FIXED_CONS = ['none', 'sat-ineq', 'sat-eq', 'viol-ineq', 'viol-eq', 'edge-in-ineq', 'edge-in-eq', 'edge-out-ineq', 'edge-out-eq']
 
@@ -172,7 +177,19 @@ class C05(Prop):
                       'ch': [leaf('a', 'Device', 2, ['1', '2'], ['1', '2'], {}), leaf('b', 'Device', 2, ['0', '3'], ['0', '3'], {})]}, 'n': 2}
     fixed_bad = {'tree': dict(fixed['tree'], sb=[['2', '3'], ['6', '7']]), 'n': 2}
     mk = lambda m, p: {'kind': 'real', 'model': m, 'p': p, 's0': None, 's0shape': 'flat', 'prox': None}
-    return [mk(two_rows, '3/2'),        # every multi-row solve raised a low-level SciPy error (matrix-shaped Jacobian)
+    # witness of the listed (open) finding F2: two MF adaptors, the second over a zero-width slot (conduit-sum equality) with a coincident
+    # cumulative bound; SLSQP stays at the even split (-2, -2) with status 0 although (-4, 0) is feasible and cheaper by 1.25
+    mfleaf = lambda id, cls, lb, hb, cb, prm, flows: {'k': 'mf', 'id': id, 'flows': flows, 'ratios': None,
+      'dev': {'cls': cls, 'n': 1, 'lb': [lb], 'hb': [hb], 'cbs': [cb], 'prm': prm, '_py': {'bform': 'pair', 'cform': '2tuple'}}}
+    f2 = {'tree': {'k': 'node', 'id': 'root', 'sb': [['-185/32', '241/32']], 'sub': False, 'ch': [
+            mfleaf('m1', 'ADevice', '2', '13/4', ['2', '21/8', 0, 1], {'f': {'k': 'hlq', 'pl': ['-1/2'], 'ph': ['-1/4'], 'xl': ['2'], 'xh': ['13/4']}}, ['e', 'h', 'g']),
+            mfleaf('m2', 'GDevice', '-4', '-4', ['-4', '-7/2', 0, 1], {'cost_coeffs': ['1', '1']}, ['e', 'h'])]}, 'n': 1}
+    # witness of the non-MF variant (found at seed 303 with 1500 cases): a nested set's equality aggregate bound (0, 0) over a slot whose
+    # only leaf is fixed at 0 by its bounds — the equality duplicates the active bound
+    import json
+    f2b = json.loads('{"kind": "real", "model": {"tree": {"k": "node", "id": "root", "sb": [["89/32", "89/32"], ["75/16", "75/16"], ["61/16", "61/16"]], "ch": [{"k": "leaf", "id": "a1", "dev": {"cls": "IDevice", "n": 3, "lb": ["1/2", "1/2", "1/2"], "hb": ["5/2", "5/2", "5/2"], "cbs": [], "prm": {"a": "0", "b": ["2", "3", "4"], "c": "0"}, "_py": {"bform": "scalar", "cform": null}}}, {"k": "node", "id": "s3", "sb": [["0", "0"], ["11/16", "39/16"], ["9/8", "9/8"]], "ch": [{"k": "leaf", "id": "h2", "dev": {"cls": "IDevice2", "n": 3, "lb": ["0", "1/4", "1/2"], "hb": ["0", "15/4", "7/4"], "cbs": [], "prm": {"p_l": "-7/4", "p_h": "-1"}, "_py": {"bform": "pair", "cform": null}}}], "sub": false}, {"k": "leaf", "id": "a4", "dev": {"cls": "CDevice2", "n": 3, "lb": ["7/4", "1/2", "3/4"], "hb": ["4", "1/2", "3"], "cbs": [["3", "15/2", 0, 3]], "prm": {"p_l": "-2", "p_h": "-3/4"}, "_py": {"bform": "table", "cform": null}}}], "sub": false}, "n": 3}, "p": ["5/8", "-1/2", "-2"], "s0": null, "s0shape": "flat", "prox": null}')
+    return [mk(f2, [['21/8'], ['-5/4'], ['-15/8'], ['13/8'], ['1']]), f2b,
+            mk(two_rows, '3/2'),        # every multi-row solve raised a low-level SciPy error (matrix-shaped Jacobian)
             mk(fixed, '0'),             # the fixed-flow shortcut returned a flat vector
             mk(fixed_bad, '0')]         # ... and ignored the constraints (aggregate bounds exclude the only in-bounds flow): must raise
 
@@ -224,6 +241,8 @@ class C05(Prop):
     try:
       try:
         opts = {'ftol': C.pf(case['ftol'])} if case.get('ftol') is not None else {}
+        if case.get('maxiter') is not None:
+          opts['maxiter'] = int(case['maxiter'])
         s, o = S.solve(dev, p, s0, solver_options=opts, prox=prox, cb=cb)
         if tuple(n_.array(s).shape) != tuple(int(v) for v in dev.shape):
           raise ValueError('solve returned shape %s for a device of shape %s' % (n_.array(s).shape, tuple(dev.shape)))
@@ -249,7 +268,7 @@ class C05(Prop):
   def ops(self, case):
     if case['kind'] == 'stub':
       m = case['model']
-      base = {'tree': m['tree'], 'n': m['n'], 'P': case['p'], 's0': case['s0'], 'prox': case['prox'], 'cb': case['cb'], 'ftol': case.get('ftol')}
+      base = {'tree': m['tree'], 'n': m['n'], 'P': case['p'], 's0': case['s0'], 'prox': case['prox'], 'cb': case['cb'], 'ftol': case.get('ftol'), 'maxiter': case.get('maxiter')}
       memo = {}
       def run():
         if 'r' not in memo:
@@ -339,6 +358,9 @@ class C05(Prop):
     where = 'model classes=%s rows=%d n=%d price=%s s0=%s prox=%s' % (classes, R, n, case['p'], 'given' if case['s0'] is not None else None, case.get('prox'))
     if tuple(int(v) for v in dev.shape) != (R, n):
       return [{'key': dict(base, kind='device-shape'), 'detail': 'device.shape is %s, description has (%d, %d)' % (tuple(dev.shape), R, n)}]
+    if not SG.safe_to_solve(dev):
+      self.ev['scipy_unsafe_skipped'] += 1
+      return []
     p = G.price_arg(case['p'])
     s0 = G.flow_arg(case['s0'], m, case['s0shape']) if case['s0'] is not None else None
     prox = None if case.get('prox') is None else C.pf(case['prox'])
@@ -351,7 +373,32 @@ class C05(Prop):
       s, o = S.solve(dev, p, s0, prox=prox)
     except S.OptimizationException as e:
       self.ev['raised_on_infeasible' if feas == 'infeasible' else 'raised_on_feasible'] += 1
-      return []
+      if feas != 'feasible':
+        return []
+      # a feasible model (LP witness in hand) must be solved — unless the optimiser itself genuinely fails on it: the
+      # documented SciPy call (same objective, same start, ftol 1e-6, maxiter 1000), made here directly, fails too.
+      # (On the unchanged tree these are SLSQP failures on degenerate active sets / infeasible starts; they are counted.)
+      from scipy.optimize import minimize
+      o = e.o
+      status = getattr(o, 'status', None)
+      x0 = (n_.array(s0, dtype=float) if s0 is not None else n_.array(dev.project(n_.zeros(dev.shape)), dtype=float)).flatten()
+      f, g = self.objective(dev, p, prox, x0)
+      try:
+        ref = minimize(f, x0, jac=g, method='SLSQP', bounds=dev.bounds, constraints=dev.constraints, options={'ftol': 1e-6, 'maxiter': 1000, 'disp': False})
+        ref_ok, ref_status = bool(ref.success), int(ref.status)
+      except Exception:
+        ref_ok, ref_status = False, -1
+      bs = self.ev['raised_on_feasible_by_status']
+      bs[str(status)] = bs.get(str(status), 0) + 1
+      if not ref_ok:
+        if poly[4] and not G.licq(dev, N, poly, x0)[0]:
+          self.ev['raised_on_feasible_degenerate_start'] += 1
+        return []
+      return [{'key': dict(base, kind='raised-on-feasible', status=status),
+               'detail': 'solve raised OptimizationException (%s) although the model is feasible (the flow %s satisfies bounds and constraints, max violation %.1e) '
+                         'and the documented SLSQP call (ftol 1e-6, maxiter 1000, same start and objective) succeeds with status %d; %s' % (
+                           ('status %s: %s' % (status, getattr(o, 'message', ''))) if status is not None else str(o)[:80],
+                           witness.round(6).tolist(), G.violation(dev, witness)[0], ref_status, where)}]
     except Exception as e:
       return [{'key': dict(base, kind='wrong-exception', exc=type(e).__name__),
                'detail': 'solve raised %s (%s) instead of returning or raising OptimizationException; %s' % (type(e).__name__, str(e)[:120], where)}]
@@ -407,7 +454,7 @@ class C05(Prop):
       best, xb = G.better_point(f, g, dev, N, x, [r.x, witness, x + 0.5*(r.x - x), x])
       fx = f(x)
       if xb is not None and fx - best > 1e-5*max(1.0, abs(best)):
-        out.append({'key': dict(base, kind='suboptimal', licq=ok_licq, shortcut=shortcut),
+        out.append({'key': dict(base, kind='suboptimal', licq=ok_licq, shortcut=shortcut, dup=G.parallel_active_pair(dev, N, poly, x)),
                     'detail': 'solve reported success at %s with objective %.9g, but the feasible flow %s (max violation %.1e) has objective %.9g; certificate gap %.3g; '
                               'active constraint gradients linearly %s; %s' % (x.round(6).tolist(), fx, xb.round(6).tolist(), G.violation(dev, xb)[0], best, gap,
                                                                                'independent' if ok_licq else 'DEPENDENT', where)})
